@@ -1130,6 +1130,75 @@ func targetedClosedClientCollected(c *core.Ctx, variant int) {
 	c.Count("targeted.closed_clients_collected", int64(len(conns)))
 }
 
+// targetedClosedClientsLeaveNothing: "leak-free" counted in heap objects. Thousands of clients are created (library agent
+// and collector), used once and closed; after garbage collection the process holds as many objects as before them. What a
+// closed client left armed in the runtime (a ticker that was not stopped stays in the timer heap of a process whose main
+// module predates Go 1.23, with its channel) shows as growth proportional to the number of clients.
+func targetedClosedClientsLeaveNothing(c *core.Ctx, variant int) {
+	c.Eval(1)
+	const n = 3000
+	cycle := func() bool {
+		for k := 0; k < n; k++ {
+			w := sim.NewWorld()
+			conn := sim.NewConn(w)
+			opts := []stun.ClientOption{}
+			if variant&1 == 1 {
+				opts = append(opts, stun.WithNoRetransmit, stun.WithClock(sim.Clock{W: w}))
+			}
+			cl, err := stun.NewClient(conn, opts...)
+			if err != nil {
+				c.Violate("newclient", "newclient", err.Error())
+
+				return false
+			}
+			if k%4 == 0 {
+				_ = cl.Start(request(seqTID(int8(k%3)), 24, byte(k)), func(stun.Event) {})
+			}
+			if err := cl.Close(); err != nil {
+				c.Violate("close-result", "close-result", map[string]interface{}{"problem": err.Error()})
+
+				return false
+			}
+		}
+
+		return true
+	}
+	objects := func() int64 {
+		var ms runtime.MemStats
+		for round := 0; round < 4; round++ {
+			runtime.GC()
+			time.Sleep(5 * time.Millisecond)
+		}
+		runtime.ReadMemStats(&ms)
+
+		return int64(ms.HeapObjects)
+	}
+	if !cycle() { // warm-up: pools, goroutine stacks, the runtime's own tables
+		return
+	}
+	var counts []int64
+	counts = append(counts, objects())
+	for round := 0; round < 3; round++ {
+		if !cycle() {
+			return
+		}
+		counts = append(counts, objects())
+	}
+	minGrowth := counts[1] - counts[0]
+	for k := 2; k < len(counts); k++ {
+		if g := counts[k] - counts[k-1]; g < minGrowth {
+			minGrowth = g
+		}
+	}
+	c.Max("targeted.heap_objects_growth_per_3000_closed_clients", minGrowth)
+	if minGrowth >= n { // every one of three rounds of n clients left at least n objects behind
+		c.Violate("leak", "leak:heap-objects-per-closed-client", map[string]interface{}{
+			"problem":           "live heap objects after garbage collection grow with the number of clients that were created and closed",
+			"clients_per_round": n, "live_objects_after_each_round": fmt.Sprint(counts), "variant": variant})
+	}
+	c.Count("targeted.closed_clients_counted_in_heap_objects", 4*n)
+}
+
 // targetedRestartWhileFirstWriteFails: Start(id) is parked right before its Write; the response arrives and is handled;
 // the application starts id again (a fresh transaction object: the pools were just flushed by the garbage collector); then
 // the first Start's write fails. The second transaction is nobody else's to release.
